@@ -4,10 +4,12 @@ package main
 // generated main VCL + one generated test file.
 //
 // request : <cov 0|1> <hex of main.vcl> <hex of main.test.vcl>
+//           tree <hex of JSON {"cov": bool, "files": {rel path: text}, "main": rel path, "include_paths": [rel dir], "filter": glob}>
 // reply   : ok (case "hex group" "hex name" <scope> <skip> <none|assert|testing|other> (logs "hex"...))... (counter a p f s) <exit>
 //           runerr <msg>  when Run itself fails (runTest would print the message and exit 1)
 
 import (
+	"encoding/json"
 	"fmt"
 	"os"
 	"path/filepath"
@@ -34,33 +36,61 @@ func testRunDir() (string, error) {
 	return d, os.MkdirAll(d, 0o755)
 }
 
+type testTree struct {
+	Cov          bool              `json:"cov"`
+	Files        map[string]string `json:"files"`
+	Main         string            `json:"main"`
+	IncludePaths []string          `json:"include_paths"`
+	Filter       string            `json:"filter"`
+}
+
 func testRun(args string) string {
 	f := strings.Fields(args)
-	if len(f) != 3 {
+	var tree testTree
+	switch {
+	case len(f) == 2 && f[0] == "tree":
+		raw, err := unhx(f[1])
+		if err != nil || json.Unmarshal(raw, &tree) != nil {
+			return "badreq tree"
+		}
+	case len(f) == 3:
+		mainSrc, err1 := unhx(f[1])
+		testSrc, err2 := unhx(f[2])
+		if err1 != nil || err2 != nil {
+			return "badreq hex"
+		}
+		tree = testTree{Cov: f[0] == "1", Main: "main.vcl",
+			Files: map[string]string{"main.vcl": string(mainSrc), "main.test.vcl": string(testSrc)}}
+	default:
 		return "badreq"
 	}
-	mainSrc, err1 := unhx(f[1])
-	testSrc, err2 := unhx(f[2])
-	if err1 != nil || err2 != nil {
-		return "badreq hex"
+	if tree.Filter == "" {
+		tree.Filter = "*.test.vcl"
 	}
 	dir, err := testRunDir()
 	if err != nil {
 		return "badreq dir " + err.Error()
 	}
 	defer os.RemoveAll(dir)
-	mainPath := filepath.Join(dir, "main.vcl")
-	if err := os.WriteFile(mainPath, mainSrc, 0o644); err != nil {
-		return "badreq write"
+	for rel, text := range tree.Files {
+		p := filepath.Join(dir, rel)
+		if err := os.MkdirAll(filepath.Dir(p), 0o755); err != nil {
+			return "badreq mkdir"
+		}
+		if err := os.WriteFile(p, []byte(text), 0o644); err != nil {
+			return "badreq write"
+		}
 	}
-	if err := os.WriteFile(filepath.Join(dir, "main.test.vcl"), testSrc, 0o644); err != nil {
-		return "badreq write"
+	mainPath := filepath.Join(dir, tree.Main)
+	var inc []string
+	for _, d := range tree.IncludePaths {
+		inc = append(inc, filepath.Join(dir, d))
 	}
-	rslv, err := resolver.NewFileResolvers(mainPath, nil)
+	rslv, err := resolver.NewFileResolvers(mainPath, inc)
 	if err != nil {
 		return "runerr " + strings.SplitN(err.Error(), "\n", 2)[0]
 	}
-	conf := &config.TestConfig{Filter: "*.test.vcl", Coverage: f[0] == "1"}
+	conf := &config.TestConfig{Filter: tree.Filter, Coverage: tree.Cov, IncludePaths: inc}
 	opts := []icontext.Option{icontext.WithResolver(rslv[0]), icontext.WithOverrideVariables(map[string]any{})}
 	factory, err := tester.New(conf, opts).Run(mainPath)
 	if err != nil {
